@@ -839,6 +839,8 @@ enum Step {
     Wasm(u8),
     /// the same keeper as `wasm:N`, wrapped in a module of the test author's own that notes every message it is handed
     WasmRec(u8),
+    /// `with_ibc(IbcAcceptingModule) . with_gov(GovAcceptingModule) . with_stargate(StargateAccepting)`: the crate's own modules
+    CrateAcc,
 }
 
 fn parse_step(tok: &str) -> Option<Step> {
@@ -850,6 +852,7 @@ fn parse_step(tok: &str) -> Option<Step> {
         ["block", n] => num(n).map(|n| Step::Block(n as u64)),
         ["wasm", n] => num(n).map(|n| Step::Wasm(n as u8)),
         ["wasmrec", n] => num(n).map(|n| Step::WasmRec(n as u8)),
+        ["crate-acc"] => Some(Step::CrateAcc),
         [slot, mode] | [slot, mode, _] => {
             let slot = ["bank", "custom", "staking", "distribution", "ibc", "gov", "stargate"].iter().find(|s| *s == slot)?;
             let mode = match *mode {
@@ -889,6 +892,19 @@ where
         }));
     };
     match first.clone() {
+        // the crate's OWN always-accepting modules in the ibc, gov and stargate slots (always the last step)
+        Step::CrateAcc => Box::new(
+            b.with_ibc(cw_multi_test::IbcAcceptingModule::new())
+                .with_gov(cw_multi_test::GovAcceptingModule::new())
+                .with_stargate(cw_multi_test::StargateAccepting)
+                .build(|_router, _api, storage| {
+                    let n = INIT_COUNT.with(|c| {
+                        c.set(c.get() + 1);
+                        c.get()
+                    });
+                    storage.set(b"init", &[n as u8]);
+                }),
+        ),
         Step::Module("bank", m, t) => apply(b.with_bank(UBank::new("bank", m, t)), rest),
         Step::Module("custom", m, t) => apply(b.with_custom(UCustom::new("custom", m, t)), rest),
         Step::Module("staking", m, t) => apply(b.with_staking(UStaking::new("staking", m, t)), rest),
@@ -964,6 +980,8 @@ const NON_WASM: &[u8] = b"\x00\x04wasm";
 fn run_op(st: &mut Option<Built>, t: &[&str]) -> String {
     if t[0] == "build" {
         let steps: Option<Vec<Step>> = t[1..].iter().map(|s| parse_step(s)).collect();
+        // `crate-acc` is only accepted as the last step
+        let steps = steps.filter(|v| v.iter().rev().skip(1).all(|s| !matches!(s, Step::CrateAcc)));
         return match steps {
             Some(steps) => match guarded(|| build(&steps)) {
                 Some(b) => {
@@ -1405,6 +1423,9 @@ fn gen_route0(rng: &mut Rng, thorough: bool) -> Vec<String> {
             steps.push(other_step(rng));
         }
         shuffle(rng, &mut steps);
+        if rng.chance(1, 5) {
+            steps.push("crate-acc".into());
+        }
         out.push(format!("build {}", steps.join(" ")));
         let n = rng.range(6, if thorough { 24 } else { 14 });
         for _ in 0..n {
